@@ -82,10 +82,55 @@ def locality_direct(chk, rng, n_cases):
         shutil.rmtree(tmp, ignore_errors=True)
     return len(meta), bad
 
+def release_cases():
+    """(what, source, acceptable outcomes): the implicit reset when an object dies, in situations the generated programs do not reach.
+    An outcome is ('runs', stdout, required QASM lines) or 'refused' (a located runtime error)"""
+    C = []
+    # a parent whose destructor hands 'this' to its child: while the child's destructor runs, the parent's qubit is still the parent's
+    C.append(("a child's destructor reaches back to its dying parent's qubit",
+              "class Child { public Parent owner; public constructor() -> Child { this.owner = null; return this; }\n"
+              " public destructor() -> Child { if (this.owner != null) { qubit n; x(n); bit b = measure this.owner.q; echo(\"owner.q=\" + b); } } }\n"
+              "class Parent { public Child c; public qubit q; public constructor() -> Parent { this.c = new Child(); return this; }\n"
+              " public destructor() -> Parent { this.c.owner = this; } }\nfunction main() -> void { Parent p = new Parent(); p = null; }",
+              [("runs", "owner.q=0\n", [])]))
+    # the qubit a generic object allocated for its T field: overwriting the field must not let it escape the reset at the object's death
+    box = ("class Box<T> { public T v; public constructor() -> Box<T> = default; public function clear() -> void { %s } }\n"
+           "function main() -> void { qubit a; Box<qubit> b = new Box<qubit>(); h(a); cx(a, b.v); b.clear(); b = null; qubit n; measure a; measure n; }")
+    for st in ("this.v = null;", "v = null;", "destroy this.v;"):
+        C.append(("a generic object's qubit field overwritten by `%s`" % st, box % st, ["refused", ("runs", "", ["reset q[1];"])]))
+    C.append(("a generic object's qubit field with an initialiser",
+              "class Box<T> { public T v = null; public constructor() -> Box<T> = default; }\n"
+              "function main() -> void { qubit a; Box<qubit> b = new Box<qubit>(); b = null; qubit n; measure a; measure n; }",
+              ["refused", ("runs", "", ["reset q[1];"])]))
+    C.append(("control: the field left alone", box % "", [("runs", "", ["reset q[1];"])]))
+    return C
+
+def run_release_cases(chk):
+    from checks import langcommon as lc
+    C = release_cases()
+    res = lc.run_impl([src for _, src, _ in C], opts="draws=0.9,0.9,0.9,0.9")
+    for (what, src, ok), r in zip(C, res):
+        good = False
+        got = "%s %s %s" % (r.get("status"), r.get("cat"), (r.get("msg") or "")[:120])
+        for o in ok:
+            if o == "refused":
+                good = good or (r.get("status") == "error" and r.get("cat") == "Runtime" and (r.get("line") or 0) > 0)
+            else:
+                lines = [l.strip() for l in (r.get("qasm") or "").splitlines()]
+                good = good or (r.get("status") == "ok" and r.get("stdout") == o[1] and all(x in lines for x in o[2]))
+        if r.get("status") == "ok":
+            got = "runs: stdout %r, circuit %s" % (r.get("stdout"), [l.strip() for l in (r.get("qasm") or "").splitlines()][4:])
+        if not good:
+            chk.report("c04-release", {"what": what, "source": src, "acceptable": [o if o == "refused" else list(o) for o in ok], "got": got,
+                                       "how": "bloch --emit-qasm <source> (measurement outcomes forced to 1)"},
+                       "implicit reset at an object's death (%s): got %s" % (what, got))
+    return len(C)
+
 def run(chk):
     quick = chk.tier == "quick"
     chk.proofs()
     rng = chk.rng
+    nrel = run_release_cases(chk)
     nloc, bad = locality_direct(chk, rng, 150 if quick else 2500)
     progs = []
     # entangled target, reset through: statement, function, object destruction, index reuse
@@ -106,7 +151,7 @@ def run(chk):
         ops, draws = sc.gen_reuse_prog(rng, n_ops=rng.randint(8, 16))
         progs.append(sc.Prog(ops, draws))
     res, ndis = sc.check_progs(chk, progs, "c04", rng, aspects=("amps", "nq", "stdout", "free-list", "sim-flags"), extra=sc.impl_state_sane)
-    chk.cov.update({"traces_validated_against_impl": len(progs) + 3 * nloc, "locality_cases": nloc, "locality_failures": bad, "disagreements": ndis,
+    chk.cov.update({"traces_validated_against_impl": len(progs) + 3 * nloc, "locality_cases": nloc, "locality_failures": bad, "disagreements": ndis, "release_case_programs": nrel,
                     "rule": "locality: random entangling circuits on 2..5 qubits, then reset of a random qubit with the draw forcing each branch; "
                             "p1*rho(branch 1)+(1-p1)*rho(branch 0) must equal the reduced density matrix before the reset (1e-9) and no amplitude may "
                             "remain on target=1. Programs: entangled target reset by statement, by a @quantum function, by object destruction and by "
